@@ -304,6 +304,35 @@ pub fn parse_file_internal(context: &ParseContext) -> Result<(), Error> {
     Ok(())
 }
 
+/// Most operators and opening parentheses a single line may hold
+pub const MAX_LINE_OPERATORS: usize = 500;
+
+/// The grammar, and everything that later walks an expression tree, recurses once per nesting
+/// level. A line with thousands of parentheses or operators would overflow the stack, so such a
+/// line is refused before it is parsed (strings and comments do not count).
+fn too_complex(line: &str) -> bool {
+    let mut operators = 0;
+    let mut in_string = false;
+    let mut previous = ' ';
+    for c in line.chars() {
+        if in_string {
+            in_string = c != '"';
+            continue;
+        }
+        match c {
+            '"' => in_string = true,
+            ';' => break,
+            '/' if previous == '/' => break,
+            '(' | '+' | '-' | '*' | '/' | '%' | '!' | '~' | '<' | '>' | '&' | '|' | '^' | '=' => {
+                operators += 1
+            }
+            _ => {}
+        }
+        previous = c;
+    }
+    operators > MAX_LINE_OPERATORS
+}
+
 #[derive(Clone, Copy, PartialEq, Eq, Debug)]
 pub enum NextItem {
     NewLine,
@@ -334,7 +363,9 @@ fn skip<'a>(
                 while let Some((line_num, line)) = iter.next() {
                     #[cfg(feature = "verif")]
                     crate::verif::step();
-                    if let Ok(item) = document::line(line) {
+                    if too_complex(line) {
+                        // cannot be a directive that ends the search
+                    } else if let Ok(item) = document::line(line) {
                         if let Document::DirectiveLine(_, directive, _) = item {
                             if other == NextItem::EndMacro && directive == Directive::EndMacro
                                 || directive == Directive::EndM
@@ -356,7 +387,9 @@ fn skip<'a>(
                 while let Some((num, line)) = iter.next() {
                     #[cfg(feature = "verif")]
                     crate::verif::step();
-                    if let Ok(item) = document::line(line) {
+                    if too_complex(line) {
+                        // cannot be a directive that ends the search
+                    } else if let Ok(item) = document::line(line) {
                         if let Document::DirectiveLine(_, directive, _) = item {
                             if other == NextItem::EndIfChain {
                                 if directive == Directive::If
@@ -426,6 +459,13 @@ pub fn parse_iter<'a>(
             let line_num = line_num + 1;
             #[cfg(feature = "verif")]
             crate::verif::line(&context.current_path, line_num);
+            if too_complex(line) {
+                bail!(
+                    "failed to parse {} with error: more than {} operators or parentheses in one line",
+                    CodePoint { line_num, num: 1 },
+                    MAX_LINE_OPERATORS
+                );
+            }
             let parsed_item = document::line(line);
             if let Ok(item) = parsed_item {
                 match item {
